@@ -11,6 +11,7 @@ package zzverif
 import (
 	"math/big"
 	"regexp"
+	"strings"
 	"time"
 )
 
@@ -90,4 +91,27 @@ func FmtBigArgs(s string) []*big.Int {
 		out = append(out, n)
 	}
 	return out
+}
+
+// Branch-free boolean connectives (both operands are evaluated; under the
+// symbolic executor they build one term instead of forking).
+func And(a, b bool) bool     { return a && b }
+func Or(a, b bool) bool      { return a || b }
+func Implies(a, b bool) bool { return !a || b }
+func Iff(a, b bool) bool     { return a == b }
+
+// RegexpOver returns an arbitrary regular expression as far as the candidate
+// strings are concerned (which of them it matches is chosen by the solver).
+func RegexpOver(cands []string) *regexp.Regexp {
+	r := next("regexp")
+	var alts []string
+	for i, c := range cands {
+		if load().Model[r.Sym+"_m"+itoa(i)] == "true" {
+			alts = append(alts, regexp.QuoteMeta(c))
+		}
+	}
+	if len(alts) == 0 {
+		return regexp.MustCompile(`^\x00nomatch$`)
+	}
+	return regexp.MustCompile("^(" + strings.Join(alts, "|") + ")$")
 }
